@@ -60,6 +60,30 @@ class OnOff(Harness):
         n = choice("n", range(1, self.maxn + 1))
         lay = choice("layout", LAYOUTS[n])
         return {"steps": [step_input(ctx, self.helper, self.kind, n, lay)]}
+    def regions(self, inp):
+        # known finding (seen on the real Numba build only: np.median is an uninterpreted function in the model): Numba's
+        # median of an integer group adds the two middle elements as int64, NumPy's converts to float first; the results
+        # differ when that sum overflows, which needs an element beyond +-2**62
+        if self.helper != "median" or self.kind != "i": return {}
+        return {"numba-median-int64-middle-sum-overflows": z3.Or([z3.Or(c > 2**62, c < -2**62) for c in inp["steps"][0]["x"].cells])}
+    def probes(self, inp):
+        # np.mean / median / quantile / std / var are uninterpreted in the model (the same symbol with Numba on and off), so
+        # the solver cannot tell the two implementations apart: observe them on the real build at the numeric corners
+        if self.helper not in ("mean", "median", "quantile", "std", "var"): return []
+        cells = inp["steps"][0]["x"].cells
+        if self.kind == "i":
+            return [("an element beyond +-2**62", z3.Or([z3.Or(c > 2**62, c < -2**62) for c in cells])),
+                    ("all elements beyond +-2**62", z3.And([z3.Or(c > 2**62, c < -2**62) for c in cells])),
+                    ("INT64_MIN present", z3.Or([c == symx.INT64_MIN for c in cells])),
+                    ("two elements whose sum leaves the int64 range", z3.Or([z3.Not(z3.And(z3.BVAddNoOverflow(a, b, True), z3.BVAddNoUnderflow(a, b)))
+                                                                            for i, a in enumerate(cells) for b in cells[i + 1:]] or [T(False)]))]
+        if self.kind == "f":
+            big = symx.fpval(8.0e307)
+            return [("an infinite element", z3.Or([z3.fpIsInf(c) for c in cells])),
+                    ("all elements huge", z3.And([z3.fpGT(z3.fpAbs(c), big) for c in cells])),
+                    ("a subnormal element", z3.Or([z3.fpIsSubnormal(c) for c in cells])),
+                    ("NaN present", z3.Or([z3.fpIsNaN(c) for c in cells]))]
+        return []
     def spec(self, inp, out):
         if isinstance(out, Raised): return [(f"does not raise ({out.type}: {out.msg[:80]})", T(False))]
         return same_frames(out["on"][0], out["off"][0], self.helper)
@@ -138,7 +162,7 @@ def harnesses(tier):
     if q:
         # one representative per kernel family (generic_numba with each default/nrequired, nth, mode, count_unique, quantile)
         for h, k in (("any", "f"), ("count", "f"), ("count_unique", "f"), ("nth", "f"), ("min", "f"), ("mode", "f"), ("mean", "f"),
-                     ("quantile", "f"), ("std", "f"), ("sum", "f"), ("min", "D"), ("first", "i"), ("max", "b")):
+                     ("quantile", "f"), ("std", "f"), ("sum", "f"), ("min", "D"), ("first", "i"), ("max", "b"), ("median", "i")):
             hs.append(OnOff(h, k, 2))
     else:
         for h in allh:
